@@ -13,6 +13,7 @@ VERIF = os.path.dirname(os.path.dirname(os.path.abspath(__file__)))
 sys.path.insert(0, VERIF)
 from tools import canary as ctool
 
+os.environ.setdefault('VERIF_CANARY_TARGET', '/verif/.cache/target-seedeval')
 ENV = dict(os.environ, CARGO_NET_OFFLINE='true', CARGO_TARGET_DIR='/tmp/seed/target-eval')
 
 
